@@ -597,6 +597,24 @@ func generateOverlay(pk *packages.Package, fset *token.FileSet, cf *ContractFile
 						cl.Locals = append(cl.Locals, LocalRef{Name: id, ParamIdx: -1, Type: "int"})
 						continue
 					}
+					if id == "loopseen" {
+						// the set of keys a range-over-map loop has visited so far
+						rs, ok := lp.(*ast.RangeStmt)
+						if !ok {
+							cl.Broken = fmt.Sprintf("%s:%d: loopseen on a non-range loop", cl.File, cl.Line)
+							continue clauses
+						}
+						tv, ok := pk.TypesInfo.Types[rs.X]
+						mt, isMap := tv.Type.Underlying().(*types.Map)
+						if !ok || !isMap {
+							cl.Broken = fmt.Sprintf("%s:%d: loopseen: the loop does not range over a map", cl.File, cl.Line)
+							continue clauses
+						}
+						ts := "GvcArr[" + types.TypeString(mt.Key(), qual) + ", bool]"
+						ps = append(ps, "loopseen "+ts)
+						cl.Locals = append(cl.Locals, LocalRef{Name: "loopseen", ParamIdx: -1, Type: ts})
+						continue
+					}
 					if id == "loopx" {
 						rs, ok := lp.(*ast.RangeStmt)
 						if !ok {
@@ -748,6 +766,7 @@ func desugarStmts(s string, ot func(string) (string, error)) (string, error) {
 }
 
 var pseudoRe = regexp.MustCompile(`\bloop[ki][0-9]*\b`)
+var pseudoSeenRe = regexp.MustCompile(`\bloopseen\b`)
 var loopiRe = regexp.MustCompile(`^loopi[1-9]$`)
 
 func oldTyper(pk *packages.Package, fset *token.FileSet, pos token.Pos, qual types.Qualifier) func(string) (string, error) {
